@@ -385,6 +385,62 @@ func init() {
 			return Iface{}
 		},
 
+		// ---- escape-analysis helpers and pointer atomics ----
+		"internal/abi.NoEscape": func(m *Machine, c *frame, f *ssa.Function, a []Value) Value { return a[0] },
+		"internal/abi.Escape":   func(m *Machine, c *frame, f *ssa.Function, a []Value) Value { return a[0] },
+		"sync/atomic.LoadPointer": atomicLoad, "sync/atomic.StorePointer": atomicStore, "sync/atomic.SwapPointer": atomicSwap,
+		"sync/atomic.CompareAndSwapPointer": atomicCAS,
+		"sync/atomic.LoadUintptr": atomicLoad, "sync/atomic.StoreUintptr": atomicStore, "sync/atomic.AddUintptr": atomicAdd,
+		"sync/atomic.CompareAndSwapUintptr": atomicCAS,
+
+		// ---- sync.Map: an association list keyed by interface values ----
+		"(*sync.Map).Load": func(m *Machine, c *frame, f *ssa.Function, a []Value) Value {
+			m.yield("sync.Map")
+			if e := m.mapFind(m.syncMapOf(a[0].(Ptr)), a[1]); e != nil {
+				return Tuple{e.V, m.tt.True}
+			}
+			return Tuple{Iface{}, m.tt.False}
+		},
+		"(*sync.Map).Store": func(m *Machine, c *frame, f *ssa.Function, a []Value) Value {
+			m.yield("sync.Map")
+			m.mapSet(m.syncMapOf(a[0].(Ptr)), a[1], a[2])
+			return nil
+		},
+		"(*sync.Map).LoadOrStore": func(m *Machine, c *frame, f *ssa.Function, a []Value) Value {
+			m.yield("sync.Map")
+			mp := m.syncMapOf(a[0].(Ptr))
+			if e := m.mapFind(mp, a[1]); e != nil {
+				return Tuple{e.V, m.tt.True}
+			}
+			mp.Entries = append(mp.Entries, &mapEntry{a[1], a[2]})
+			return Tuple{a[2], m.tt.False}
+		},
+		"(*sync.Map).LoadAndDelete": func(m *Machine, c *frame, f *ssa.Function, a []Value) Value {
+			m.yield("sync.Map")
+			mp := m.syncMapOf(a[0].(Ptr))
+			if e := m.mapFind(mp, a[1]); e != nil {
+				v := e.V
+				m.mapDelete(mp, a[1])
+				return Tuple{v, m.tt.True}
+			}
+			return Tuple{Iface{}, m.tt.False}
+		},
+		"(*sync.Map).Delete": func(m *Machine, c *frame, f *ssa.Function, a []Value) Value {
+			m.yield("sync.Map")
+			m.mapDelete(m.syncMapOf(a[0].(Ptr)), a[1])
+			return nil
+		},
+		"(*sync.Map).Range": func(m *Machine, c *frame, f *ssa.Function, a []Value) Value {
+			m.yield("sync.Map")
+			mp := m.syncMapOf(a[0].(Ptr))
+			for _, e := range append([]*mapEntry(nil), mp.Entries...) {
+				if !m.branch(m.call(c, token.NoPos, a[1], []Value{e.K, e.V}).(*Term)) {
+					break
+				}
+			}
+			return nil
+		},
+
 		// ---- atomics (on the pointed-to cell) ----
 		"sync/atomic.AddInt32":  atomicAdd, "sync/atomic.AddInt64": atomicAdd, "sync/atomic.AddUint32": atomicAdd, "sync/atomic.AddUint64": atomicAdd,
 		"sync/atomic.LoadInt32": atomicLoad, "sync/atomic.LoadInt64": atomicLoad, "sync/atomic.LoadUint32": atomicLoad, "sync/atomic.LoadUint64": atomicLoad,
@@ -552,6 +608,126 @@ func init() {
 				out[i] = m.tt.Ite(isLower, m.tt.BvBin(OBvSub, b, m.tt.Const(8, 32)), b)
 			}
 			return out
+		},
+		"strings.ToLower": func(m *Machine, c *frame, f *ssa.Function, a []Value) Value {
+			s := a[0].(Str)
+			out := make(Str, len(s))
+			for i, b := range s {
+				m.requireASCII(b)
+				isUpper := m.tt.And(m.tt.BvCmp(OBvUle, m.tt.Const(8, 'A'), b), m.tt.BvCmp(OBvUle, b, m.tt.Const(8, 'Z')))
+				out[i] = m.tt.Ite(isUpper, m.tt.BvBin(OBvAdd, b, m.tt.Const(8, 32)), b)
+			}
+			return out
+		},
+		"(*strings.Builder).WriteString": func(m *Machine, c *frame, f *ssa.Function, a []Value) Value {
+			p := a[0].(Ptr)
+			cur, _ := m.side[p].(Str)
+			m.side[p] = append(append(Str{}, cur...), a[1].(Str)...)
+			return Tuple{m.tt.Const(64, uint64(len(a[1].(Str)))), Iface{}}
+		},
+		"(*strings.Builder).Write": func(m *Machine, c *frame, f *ssa.Function, a []Value) Value {
+			p := a[0].(Ptr)
+			cur, _ := m.side[p].(Str)
+			m.side[p] = append(append(Str{}, cur...), sliceToStr(a[1].(Slice))...)
+			return Tuple{m.tt.Const(64, uint64(len(a[1].(Slice)))), Iface{}}
+		},
+		"(*strings.Builder).WriteByte": func(m *Machine, c *frame, f *ssa.Function, a []Value) Value {
+			p := a[0].(Ptr)
+			cur, _ := m.side[p].(Str)
+			m.side[p] = append(append(Str{}, cur...), a[1].(*Term))
+			return Iface{}
+		},
+		"(*strings.Builder).WriteRune": func(m *Machine, c *frame, f *ssa.Function, a []Value) Value {
+			p := a[0].(Ptr)
+			r := a[1].(*Term)
+			if !r.IsConst() || r.C >= 0x80 {
+				m.inconclusive("strings.Builder.WriteRune of a symbolic or non-ASCII rune")
+			}
+			cur, _ := m.side[p].(Str)
+			m.side[p] = append(append(Str{}, cur...), m.tt.Const(8, r.C))
+			return Tuple{m.tt.Const(64, 1), Iface{}}
+		},
+		"(*strings.Builder).String": func(m *Machine, c *frame, f *ssa.Function, a []Value) Value {
+			cur, _ := m.side[a[0].(Ptr)].(Str)
+			return append(Str{}, cur...)
+		},
+		"(*strings.Builder).Len": func(m *Machine, c *frame, f *ssa.Function, a []Value) Value {
+			cur, _ := m.side[a[0].(Ptr)].(Str)
+			return m.tt.Const(64, uint64(len(cur)))
+		},
+		"(*strings.Builder).Grow":  noop,
+		"(*strings.Builder).Reset": func(m *Machine, c *frame, f *ssa.Function, a []Value) Value { delete(m.side, a[0].(Ptr)); return nil },
+		"internal/bytealg.CountString": func(m *Machine, c *frame, f *ssa.Function, a []Value) Value {
+			n := 0
+			for _, b := range a[0].(Str) {
+				if m.branch(m.tt.Eq(b, a[1].(*Term))) {
+					n++
+				}
+			}
+			return m.tt.Const(64, uint64(n))
+		},
+		"internal/bytealg.Count": func(m *Machine, c *frame, f *ssa.Function, a []Value) Value {
+			n := 0
+			for _, b := range a[0].(Slice) {
+				if m.branch(m.tt.Eq(b.(*Term), a[1].(*Term))) {
+					n++
+				}
+			}
+			return m.tt.Const(64, uint64(n))
+		},
+		"internal/bytealg.IndexByteString": func(m *Machine, c *frame, f *ssa.Function, a []Value) Value {
+			for i, b := range a[0].(Str) {
+				if m.branch(m.tt.Eq(b, a[1].(*Term))) {
+					return m.tt.Const(64, uint64(i))
+				}
+			}
+			return m.tt.Const(64, ^uint64(0))
+		},
+		"internal/bytealg.IndexByte": func(m *Machine, c *frame, f *ssa.Function, a []Value) Value {
+			for i, b := range a[0].(Slice) {
+				if m.branch(m.tt.Eq(b.(*Term), a[1].(*Term))) {
+					return m.tt.Const(64, uint64(i))
+				}
+			}
+			return m.tt.Const(64, ^uint64(0))
+		},
+		"internal/bytealg.IndexString": func(m *Machine, c *frame, f *ssa.Function, a []Value) Value {
+			return m.tt.Const(64, uint64(int64(m.strIndex(a[0].(Str), a[1].(Str), 0))))
+		},
+		"internal/bytealg.Equal": func(m *Machine, c *frame, f *ssa.Function, a []Value) Value {
+			return m.strEq(sliceToStr(a[0].(Slice)), sliceToStr(a[1].(Slice)))
+		},
+		"strings.Count": func(m *Machine, c *frame, f *ssa.Function, a []Value) Value {
+			s, sep := a[0].(Str), a[1].(Str)
+			if len(sep) == 0 {
+				m.inconclusive("strings.Count with an empty separator")
+			}
+			n, from := 0, 0
+			for {
+				i := m.strIndex(s, sep, from)
+				if i < 0 {
+					break
+				}
+				n++
+				from = i + len(sep)
+			}
+			return m.tt.Const(64, uint64(n))
+		},
+		"strings.IndexByte": func(m *Machine, c *frame, f *ssa.Function, a []Value) Value {
+			for i, b := range a[0].(Str) {
+				if m.branch(m.tt.Eq(b, a[1].(*Term))) {
+					return m.tt.Const(64, uint64(i))
+				}
+			}
+			return m.tt.Const(64, ^uint64(0))
+		},
+		"internal/bytealg.MakeNoZero": func(m *Machine, c *frame, f *ssa.Function, a []Value) Value {
+			n := int(m.conc(a[0], "MakeNoZero length"))
+			s := make(Slice, n)
+			for i := range s {
+				s[i] = m.tt.Const(8, 0)
+			}
+			return s
 		},
 		"strings.TrimSpace": func(m *Machine, c *frame, f *ssa.Function, a []Value) Value {
 			s := a[0].(Str)
@@ -725,6 +901,18 @@ func sortSlice(m *Machine, c *frame, f *ssa.Function, a []Value) Value {
 	return nil
 }
 
+func (m *Machine) syncMapOf(p Ptr) *Map {
+	if p == nil {
+		m.runtimePanic("invalid memory address or nil pointer dereference (nil *sync.Map)")
+	}
+	mp, ok := m.side[p].(*Map)
+	if !ok {
+		mp = &Map{KeyT: types.NewInterfaceType(nil, nil)}
+		m.side[p] = mp
+	}
+	return mp
+}
+
 func (m *Machine) chooseNamed(name string, n int) int {
 	m.harnessChoose = true
 	k := m.choose(name, n)
@@ -880,6 +1068,13 @@ func atomicSwap(m *Machine, c *frame, f *ssa.Function, a []Value) Value {
 func atomicCAS(m *Machine, c *frame, f *ssa.Function, a []Value) Value {
 	m.yield("atomic")
 	p := a[0].(Ptr)
+	if op, isPtr := m.load(p).(Ptr); isPtr {
+		if op == a[1].(Ptr) {
+			m.store(p, a[2])
+			return m.tt.True
+		}
+		return m.tt.False
+	}
 	if m.branch(m.tt.Eq(m.load(p).(*Term), a[1].(*Term))) {
 		m.store(p, a[2])
 		return m.tt.True
